@@ -1,9 +1,12 @@
 //! verif-harness <component> <scenarios.json> <traces.json>
 //! Runs every scenario of the input file against the real crates and writes one trace per
 //! scenario. Nothing is written to stdout (JuraV1::tick prints its book there).
+mod client;
+mod comp_broker;
 mod comp_cost;
 mod comp_exch;
 mod comp_sched;
+mod comp_server;
 mod util;
 
 use serde_json::Value;
@@ -26,6 +29,8 @@ fn main() {
             "cost" => comp_cost::run(sc),
             "sched" => comp_sched::run(sc),
             "exch" => comp_exch::run(sc),
+            "server" => comp_server::run(sc),
+            "broker" => comp_broker::run(sc),
             _ => panic!("unknown component {comp}"),
         });
         out.push(match r {
